@@ -113,13 +113,21 @@ def replay_layout(d):
     for hn, bn, t, w in ref:
         exp.append((hn, pos, w))
         pos += w
-    if got != exp:
+    import re
+    norm = lambda n: re.sub(r"[^0-9A-Za-z]+", "_", n)
+    if [(norm(a), b, c) for a, b, c in got] != [(norm(a), b, c) for a, b, c in exp] or len({g[0] for g in got}) != len(got):
         return True, f"layout {got} != reference {exp}"
     sigs = {s: kv for s, kv in d.get("signals", [])}
     for v, (hn, bn, t, w) in zip(out, ref):
-        e = sigs.get(hn.split("::")[-1], {})
-        if dict(v.extended_data) != e or v.endianess != (e.get("endianess") or "little"):
-            return True, f"options of leaf {hn}: {v.extended_data}/{v.endianess}, expected {e}"
+        leafname = hn.split("::")[-1]
+        own = sigs.get(leafname) if leafname == bn else None
+        allowed = [{}]
+        if own is not None:
+            allowed = [own] if "::" not in hn else [own, {}]
+        elif bn in sigs:
+            allowed = [sigs[bn], {}]
+        if not any(dict(v.extended_data) == a and v.endianess == (a.get("endianess") or "little") for a in allowed):
+            return True, f"options of leaf {hn}: {v.extended_data}/{v.endianess}, allowed {allowed}"
     return False, "layout equals the reference tiling"
 
 
@@ -156,3 +164,61 @@ def replay_verifier(d):
     if ok != spec:
         return True, f"verify -> {'Ok' if ok else 'Err'}, specification -> {'well' if spec else 'ill'}-formed; tree={desc}"
     return False, f"verdict {ok} equals specification"
+
+
+def _fcp_text(text):
+    from fcp.parser import get_fcp_from_string
+    from fcp.error import Logger
+
+    return get_fcp_from_string(text, Logger({})).unwrap()
+
+
+def replay_serde_permuted(d):
+    """encode with the schema and with its declaration-permuted twin must give the same (canonical) bytes."""
+    from fcp import serde
+
+    fa, fb = _fcp_text(d["schema_text"]), _fcp_text(d["twin_text"])
+    v = from_json(d["value"])
+    try:
+        a = bytes(serde.encode(fa, d["top"], v))
+        b = bytes(serde.encode(fb, d["top"], v))
+    except Exception as e:
+        return True, f"encode raised {type(e).__name__}: {e}"
+    if a != b:
+        return True, f"encode({v!r}) = {list(a)} with the schema, {list(b)} with its declaration-permuted twin"
+    sch = _schema(d)
+    da = serde.decode(fa, d["top"], bytearray(a))
+    db = serde.decode(fb, d["top"], bytearray(a))
+    if not values_equal(sch, ("struct", d["top"]), da, db):
+        return True, f"{list(a)} decodes to {da!r} with the schema and to {db!r} with its twin"
+    return False, "same bytes and same decoding for both declaration orders"
+
+
+def _layout_of(text):
+    from fcp.encoding import make_encoder, PackedEncoderContext
+
+    f = _fcp_text(text)
+    impl = [i for i in f.impls if i.protocol == "can"][0]
+    enc = make_encoder("packed", f, PackedEncoderContext().with_unroll_arrays(True))
+    return [(str(v.name), v.bitstart, v.bitlength) for v in enc.generate(impl)]
+
+
+def replay_permuted_layout(d):
+    a, b = _layout_of(d["schema_text"]), _layout_of(d["twin_text"])
+    if a != b:
+        return True, f"layout {a} vs twin {b}"
+    return False, "same layout"
+
+
+def replay_permuted_dbc(d):
+    import fcp_dbc
+
+    ta = fcp_dbc.Generator().generate(_fcp_text(d["schema_text"]), {"output": "out"})
+    tb = fcp_dbc.Generator().generate(_fcp_text(d["twin_text"]), {"output": "out"})
+    sa = [(r["bus"], r["contents"]) for r in ta]
+    sb = [(r["bus"], r["contents"]) for r in tb]
+    if sa != sb:
+        la, lb = sa[0][1].splitlines(), sb[0][1].splitlines()
+        diff = [(x, y) for x, y in zip(la, lb) if x != y][:3]
+        return True, f"DBC text differs, e.g. {diff}"
+    return False, "same DBC"
